@@ -40,6 +40,10 @@ CHECKS = {
    technique="exhaustive enumeration of a product of record shapes for the round trip and of every single-byte alteration of real journals, each recovered by the real code",
    text="(a) The product of key lengths, value lengths around the compression threshold and the buffer size, contents, tombstone kinds, clear, batch shapes and both compression settings at write and at read time is written by the real write path, crash-imaged and recovered: bytes must be identical. (b) For six representative journals every byte of the used part is altered (13 alterations per byte in the quick tier, all 255 in the thorough tier) and the image recovered: open must fail or yield exactly a prefix of the commit history.",
    note="Single-byte damage only. One genuine defect (Start-marker seqno outside the checksum) is listed in known_findings.txt."),
+ "C18": dict(level="model_checking", engine="E1-seqcheck", design="§3, §6 C18",
+   technique="bounded exhaustive enumeration of operation programs on the real database for every assignment function and filter, with a per-key original/filtered automaton as oracle",
+   text="For every assignment function over keyspace names {x,y} and deterministic filters decided from the key (keep / remove / replace / both), every program up to the stated depth over writes, batches, rotation, every queued worker message (flush and compaction), major compaction and reopen with the same assigner runs on the real code (also with key-value separation); after every step each key must be in its original or its filtered form, stay filtered once observed filtered until rewritten, be filtered after a major compaction that covered it, and keys with verdict keep or in unassigned keyspaces must equal the plain model; scans and point reads agree.",
+   note="Verdicts Keep/Remove/ReplaceValue only. One genuine defect (a removed item is replayed from the journal after reopen) is listed in known_findings.txt."),
 }
 
 NOT_YET = {
